@@ -694,6 +694,17 @@ class SortedWriter {
 }
 
 
+function compare_serialized_keys(a, b) {
+    // GROUP BY keys are kept as JSON text: the order of the groups must be the order of the key values and not of their serialized text
+    let [lhs, rhs] = [JSON.parse(a), JSON.parse(b)];
+    for (let i = 0; i < lhs.length; i++) {
+        if (lhs[i] !== rhs[i])
+            return lhs[i] < rhs[i] ? -1 : 1;
+    }
+    return 0;
+}
+
+
 class AggregateWriter {
     constructor(subwriter) {
         this.subwriter = subwriter;
@@ -703,7 +714,7 @@ class AggregateWriter {
 
     async finish() {
         var all_keys = Array.from(this.aggregation_keys);
-        all_keys.sort();
+        all_keys.sort(compare_serialized_keys);
         for (var i = 0; i < all_keys.length; i++) {
             var key = all_keys[i];
             var out_fields = [];
